@@ -20,7 +20,7 @@ def duBytes : Spec.HtmlAttr.DU → Bytes
   | .lit c => [charToByte c]
   | .cp n => utf8 n
 
-/-- `model.c03.replent mode raw` — mode 0: ReplaceEntities text maps, 1: attr (rev = nil),
+/-- `model.c03.replent mode raw` — mode 0: ReplaceEntities text maps, 1: attr (AttrRevEntitiesMap),
     2: ReplaceMultipleWhitespaceAndEntities text maps, 3: same with rev = nil -/
 def replent : Handler := fun args => do
   let mode ← argNat args 0
@@ -29,9 +29,9 @@ def replent : Handler := fun args => do
   let rev := C03Tables.textRevEntitiesMap
   let out := match mode with
     | 0 => Model.HtmlAttr.replaceEntities em rev raw
-    | 1 => Model.HtmlAttr.replaceEntities em [] raw
+    | 1 => Model.HtmlAttr.replaceEntities em C03Tables.attrRevEntitiesMap raw
     | 2 => Model.HtmlAttr.replaceWsEntities em rev raw
-    | _ => Model.HtmlAttr.replaceWsEntities em [] raw
+    | _ => Model.HtmlAttr.replaceWsEntities em C03Tables.attrRevEntitiesMap raw
   .ok (charsToBytes out)
 
 def quoteOf (n : Nat) : Model.HtmlAttr.Quote :=
@@ -65,7 +65,7 @@ def tokattr : Handler := fun args => do
 def trigRefs : Handler := fun args => do
   let raw ← argChars args 1
   let names := (if Spec.HtmlKnown.glue raw then ["glue"] else []) ++
-    (if Spec.HtmlKnown.ctlRef raw || Spec.HtmlKnown.crLfRef raw then ["ctlref"] else []) ++
+    (if Spec.HtmlKnown.crLfRef raw then ["crlf"] else []) ++
     (if Spec.HtmlKnown.hexOverflow raw then ["hexoverflow"] else [])
   .ok (strBytes (if names.isEmpty then "none" else ",".intercalate names))
 
